@@ -207,6 +207,10 @@ def run(ck):
     # reference = Python's own evaluation of the expression text over the variable values (explicit sequences only:
     # ranges are numpy arrays), in the documented step order.
     n_or += typed_parameter_oracle(ck, rng, 40 if thorough else 12)
+    # direct oracle (3b): sweep variables spelled like the whitelisted functions (legal names): the expression reads the VARIABLE
+    n_or += function_named_variables_oracle(ck)
+    # direct oracle (3c): one sweep class shared by two processors run concurrently with different contexts
+    n_or += shared_sweep_class_oracle(ck, rng, 6 if thorough else 3)
     # direct oracle (4): an element that raises on ONE step.  "One element per sweep step": whatever the exception class, the
     # node must fail (the run raises); it must never return a collection / probe list with fewer elements than steps.
     n_or += failing_step_oracle(ck, rng, 30 if thorough else 10)
@@ -263,6 +267,107 @@ def typed_parameter_oracle(ck, rng, n):
                           "step %s: the wrapped probe received %r, the expression values are %r (p=%r q=%r)" %
                           (first, list(got)[first] if first is not None and first < len(list(got)) else list(got), want[first] if first is not None else want, ep, eq),
                           dict(replay, got=list(got)))
+    return runs
+
+
+def function_named_variables_oracle(ck):
+    from semantiva.context_processors import ContextType
+    from semantiva.pipeline import Payload, Pipeline
+    from harness.lib.components import VerifTypeTagProbe
+    import itertools
+    fns = {"abs": abs, "min": min, "max": max, "round": round, "float": float, "int": int, "str": str, "bool": bool}
+    cases = [({"max": [1.0, 5.0], "min": [0.5]}, "max - min"), ({"round": [0.0, 1.0, 0.0]}, "2.0 if round else -2.0"),
+             ({"abs": [-3.0, 4.0]}, "abs * 2"), ({"int": [1.5, 2.5], "t": [1.0]}, "int + t"), ({"max": [2.0, 3.0]}, "max(max, 2.5)"),
+             ({"float": [1, 2]}, "float"), ({"bool": [0, 2], "str": [7]}, "bool and str")]
+    runs = 0
+    for variables, expr in cases:
+        names = sorted(variables)
+        want = []
+        try:
+            for combo in itertools.product(*[variables[n] for n in names]):
+                env = dict(zip(names, combo))
+                pv = eval(expr, {"__builtins__": {}}, dict(fns, **env))
+                want.append("%s:%r|NoneType:None" % (type(pv).__name__, pv))
+        except Exception as ex:  # noqa
+            want = ("raises", type(ex).__name__)
+        cfg = [{"processor": "FloatValueDataSource", "parameters": {"value": 1.0}},
+               {"processor": VerifTypeTagProbe, "context_key": "tags",
+                "derive": {"parameter_sweep": {"parameters": {"p": expr}, "variables": {k: list(v) for k, v in variables.items()}, "mode": "combinatorial"}}}]
+        runs += 1
+        try:
+            got = list(Pipeline(cfg).process(Payload(None, ContextType({}))).context.get_value("tags"))
+        except Exception as ex:  # noqa
+            got = ("raises", type(ex).__name__)
+        if got != want and not (isinstance(want, tuple) and isinstance(got, tuple)):
+            ck.fail_input("C03:function-named-variable:element-differs-from-the-variables-values",
+                          "sweep variables %s, parameter expression %r: elements %s, the variable values give %s" % (variables, expr, str(got)[:200], str(want)[:200]),
+                          {"kind": "function-named-variables", "variables": variables, "expr": expr})
+    return runs
+
+
+def shared_sweep_class_oracle(ck, rng, n):
+    """One sweep class (ParametricSweepFactory.create) used by two processors in two Pipelines that run at the same time with
+    different from_context sequences: each run publishes ITS OWN <var>_values and computes its own elements."""
+    import threading
+    from semantiva.context_processors import ContextType
+    from semantiva.data_processors.parametric_sweep_factory import FromContext, ParametricSweepFactory
+    from semantiva.examples.test_utils import FloatDataCollection, FloatDataType
+    from semantiva.pipeline import Payload, Pipeline
+    from harness.lib.components import VerifRendezvousOperation as RV
+    runs = 0
+    for kind in ("DataOperation", "DataProbe")[: max(1, n // 3 + 1)]:
+        for trial in range(max(1, n // 2)):
+            class Elem(RV):        # multiplies by f after meeting the other run at the barrier
+                def _process_logic(self, data, f):
+                    RV._process_logic(self, data)
+                    return FloatDataType(data.data * f) if kind == "DataOperation" else data.data * f
+            if kind == "DataProbe":
+                from semantiva.examples.test_utils import FloatProbe
+
+                class Elem(FloatProbe):  # noqa: F811
+                    def _process_logic(self, data, f):
+                        b = RV.barrier
+                        if b is not None:
+                            try:
+                                b.wait(timeout=5)
+                            except threading.BrokenBarrierError:
+                                pass
+                        return data.data * f
+            try:
+                cls = ParametricSweepFactory.create(element=Elem, element_kind=kind,
+                                                    collection_output=FloatDataCollection if kind == "DataOperation" else None,
+                                                    vars={"f": FromContext("fs")}, parametric_expressions={"f": "f"}, mode="combinatorial", broadcast=False)
+            except Exception as ex:  # noqa
+                ck.corr_problem("shared-sweep-class oracle could not build the sweep", repr(ex))
+                return runs
+            seqs = [[float(rng.randint(1, 4)) for _ in range(rng.randint(2, 4))], [float(rng.randint(5, 9)) for _ in range(rng.randint(2, 4))]]
+            node = {"processor": cls, "context_key": "out"} if kind == "DataProbe" else {"processor": cls}
+            pipes = [Pipeline([{"processor": "FloatValueDataSource", "parameters": {"value": 2.0}}, dict(node)]) for _ in (0, 1)]
+            got = [None, None]
+            RV.barrier = threading.Barrier(2)
+
+            def work(i):
+                try:
+                    out = pipes[i].process(Payload(None, ContextType({"fs": list(seqs[i])})))
+                    d = out.context.to_dict()
+                    elems = list(d.get("out")) if kind == "DataProbe" else [x.data for x in out.data]
+                    got[i] = (elems, list(d.get("f_values")))
+                except Exception as ex:  # noqa
+                    got[i] = ("raises", repr(ex)[:120])
+            ts = [threading.Thread(target=work, args=(i,), daemon=True) for i in (0, 1)]
+            for t in ts:
+                t.start()
+            for t in ts:
+                t.join(30)
+            RV.barrier = None
+            runs += 2
+            for i in (0, 1):
+                want = ([2.0 * f for f in seqs[i]], seqs[i])
+                if got[i] != want:
+                    ck.fail_input("C03:shared-sweep-class:concurrent-run-sees-the-other-runs-values:%s" % kind,
+                                  "two concurrent runs of one sweep class with from_context sequences %s: run %d gives (elements, f_values) = %s, its own are %s"
+                                  % (seqs, i, str(got[i])[:200], want), {"kind": "shared-sweep-class", "element_kind": kind, "sequences": seqs})
+                    break
     return runs
 
 
